@@ -255,19 +255,43 @@ func runC11(c *Ctx) {
 			if fn == nil || fn.Pkg() == nil || fn.Pkg().Path() != "slices" || fn.Name() != "BinarySearchFunc" || len(call.Args) != 3 {
 				continue
 			}
-			fl, ok := call.Args[2].(*ast.FuncLit)
-			if !ok || fl.Type.Params.NumFields() != 2 {
-				c.Unresolved("R11c", fi.Name+": BinarySearchFunc comparator is not a 2-parameter function literal")
+			// the comparator: a function literal or a named module-local function
+			var ftype *ast.FuncType
+			var fbody *ast.BlockStmt
+			cinfo := info
+			switch x := ast.Unparen(call.Args[2]).(type) {
+			case *ast.FuncLit:
+				ftype, fbody = x.Type, x.Body
+			case *ast.Ident, *ast.SelectorExpr:
+				var id *ast.Ident
+				if sel, isSel := x.(*ast.SelectorExpr); isSel {
+					id = sel.Sel
+				} else {
+					id = x.(*ast.Ident)
+				}
+				if nf, isFn := info.ObjectOf(id).(*types.Func); isFn {
+					if cf := c.FuncInfoOf(nf); cf != nil && cf.Decl.Body != nil {
+						ftype, fbody, cinfo = cf.Decl.Type, cf.Decl.Body, cf.Info()
+					}
+				}
+			}
+			if ftype == nil || ftype.Params.NumFields() != 2 {
+				c.Unresolved("R11c", fi.Name+": BinarySearchFunc comparator is neither a 2-parameter function literal nor a module-local function")
 				continue
 			}
 			var ps []types.Object
-			for _, fld := range fl.Type.Params.List {
+			for _, fld := range ftype.Params.List {
 				for _, nm := range fld.Names {
-					ps = append(ps, info.ObjectOf(nm))
+					ps = append(ps, cinfo.ObjectOf(nm))
 				}
 			}
+			if len(ps) != 2 {
+				c.Unresolved("R11c", fi.Name+": BinarySearchFunc comparator parameters")
+				continue
+			}
 			oriented := false
-			ast.Inspect(fl.Body, func(m ast.Node) bool {
+			info := cinfo
+			ast.Inspect(fbody, func(m ast.Node) bool {
 				cc, ok := m.(*ast.CallExpr)
 				if !ok || len(cc.Args) != 2 {
 					return true
@@ -346,7 +370,8 @@ func runC11(c *Ctx) {
 							hasContinue = true
 						}
 					}
-					if hasContinue && !strings.Contains(types.ExprString(s.Cond), "IsCheckpoint()") {
+					isCk := func(fn *types.Func, _ *ast.CallExpr) bool { return fn.Name() == "IsCheckpoint" }
+					if hasContinue && nodeHasCall(info, s.Cond, c.viaHelpers(isCk, 2)) == nil {
 						skipGuarded = false
 					}
 				}
@@ -354,6 +379,44 @@ func runC11(c *Ctx) {
 			ok = keepTop && skipGuarded
 			return true
 		})
+		// equivalent idiom: slices.DeleteFunc(<fresh copy>, <predicate reaching IsCheckpoint>)
+		for _, call := range callsIn(fi.Decl.Body, true) {
+			fn := calleeOf(info, call)
+			if fn == nil || fn.Pkg() == nil || fn.Pkg().Path() != "slices" || fn.Name() != "DeleteFunc" || len(call.Args) != 2 {
+				continue
+			}
+			isCk := func(g *types.Func) bool { return g.Name() == "IsCheckpoint" }
+			predOK := false
+			switch p := ast.Unparen(call.Args[1]).(type) {
+			case *ast.Ident:
+				if pf, isFn := info.ObjectOf(p).(*types.Func); isFn {
+					predOK = c.mayReach(pf, isCk, 2)
+				}
+			case *ast.FuncLit:
+				predOK = nodeHasCall(info, p.Body, c.viaHelpers(func(g *types.Func, _ *ast.CallExpr) bool { return isCk(g) }, 2)) != nil
+			}
+			// the filtered slice must not be the parameter itself
+			fresh := false
+			if id, isID := ast.Unparen(call.Args[0]).(*ast.Ident); isID {
+				obj := info.ObjectOf(id)
+				isParam := false
+				for _, fld := range fi.Decl.Type.Params.List {
+					for _, nm := range fld.Names {
+						if info.ObjectOf(nm) == obj {
+							isParam = true
+						}
+					}
+				}
+				fresh = !isParam
+			} else if cl, isCall := ast.Unparen(call.Args[0]).(*ast.CallExpr); isCall {
+				if g := calleeOf(info, cl); g != nil && g.Pkg() != nil && g.Pkg().Path() == "slices" && g.Name() == "Clone" {
+					fresh = true
+				}
+			}
+			if predOK && fresh {
+				ok = true
+			}
+		}
 		c.Check("R11e", "SkipCheckpointFiles|drops exactly the checkpoint files", fi.Decl.Pos(), ok, "SkipCheckpointFiles must keep every file unconditionally except those for which IsCheckpoint() holds")
 	}
 	if fi := c.Func("R11e", pMigrate, "", "filesFromCheckpoint"); fi != nil {
@@ -677,71 +740,104 @@ const ruleTextPartialAnywhere = "a partially applied revision is pending whereve
 
 // checkPartialAnywhere: see ruleTextPartialAnywhere.
 func checkPartialAnywhere(c *Ctx, rule string) {
-	fi := c.Func(rule, pMigrate, "Executor", "Pending")
-	if fi == nil {
+	root := c.Func(rule, pMigrate, "Executor", "Pending")
+	if root == nil {
 		return
 	}
-	info := fi.Info()
+	// Pending and the module-local functions it calls (the look-up may live in a helper)
+	scope := []*FuncInfo{root}
+	seen := map[*types.Func]bool{root.Obj: true}
+	for i := 0; i < len(scope) && i < 40; i++ {
+		fi := scope[i]
+		for _, call := range callsIn(fi.Decl.Body, true) {
+			if fn := calleeOf(fi.Info(), call); fn != nil && !seen[fn] && fn.Pkg() != nil && fn.Pkg().Path() == pMigrate {
+				seen[fn] = true
+				if cf := c.FuncInfoOf(fn); cf != nil && cf.Decl.Body != nil && len(scope) < 40 {
+					scope = append(scope, cf)
+				}
+			}
+		}
+	}
 	n := 0
-	ast.Inspect(fi.Decl.Body, func(m ast.Node) bool {
-		ifs, ok := m.(*ast.IfStmt)
-		if !ok || ifs.Init == nil {
-			return true
-		}
-		as, ok := ifs.Init.(*ast.AssignStmt)
-		if !ok || len(as.Lhs) != 2 || len(as.Rhs) != 1 {
-			return true
-		}
-		call, ok := as.Rhs[0].(*ast.CallExpr)
-		if !ok || len(call.Args) != 3 {
-			return true
-		}
-		fn := calleeOf(info, call)
-		if fn == nil || fn.Pkg() == nil || fn.Pkg().Path() != "slices" || fn.Name() != "BinarySearchFunc" {
-			return true
-		}
-		// searching the revisions for a file
-		st, ok := info.TypeOf(call.Args[0]).Underlying().(*types.Slice)
-		if !ok || !typeIs(derefType(st.Elem()), pMigrate, "Revision") || !typeIs(info.TypeOf(call.Args[1]), pMigrate, "File") {
-			return true
-		}
-		n++
-		idx, _ := as.Lhs[0].(*ast.Ident)
-		okIdx := idx != nil && idx.Name != "_"
-		reads := map[string]bool{}
-		if okIdx {
-			iobj := info.ObjectOf(idx)
-			ast.Inspect(ifs.Cond, func(k ast.Node) bool {
-				se, ok := k.(*ast.SelectorExpr)
-				if !ok {
-					return true
-				}
-				if ix, ok := ast.Unparen(se.X).(*ast.IndexExpr); ok {
-					if id, ok := ast.Unparen(ix.Index).(*ast.Ident); ok && info.ObjectOf(id) == iobj && types.ExprString(ix.X) == types.ExprString(call.Args[0]) {
-						if v, isVar := info.ObjectOf(se.Sel).(*types.Var); isVar && v.IsField() {
-							reads[se.Sel.Name] = true
+	for _, fi := range scope {
+		info := fi.Info()
+		pm := parentMap(fi.Decl.Body)
+		ast.Inspect(fi.Decl.Body, func(m ast.Node) bool {
+			as, ok := m.(*ast.AssignStmt)
+			if !ok || len(as.Lhs) != 2 || len(as.Rhs) != 1 {
+				return true
+			}
+			call, ok := as.Rhs[0].(*ast.CallExpr)
+			if !ok || len(call.Args) != 3 {
+				return true
+			}
+			fn := calleeOf(info, call)
+			if fn == nil || fn.Pkg() == nil || fn.Pkg().Path() != "slices" || fn.Name() != "BinarySearchFunc" {
+				return true
+			}
+			// searching the revisions for a file
+			st, ok := info.TypeOf(call.Args[0]).Underlying().(*types.Slice)
+			if !ok || !typeIs(derefType(st.Elem()), pMigrate, "Revision") || !typeIs(info.TypeOf(call.Args[1]), pMigrate, "File") {
+				return true
+			}
+			n++
+			c.funcs[fi.Name] = true
+			idx, _ := as.Lhs[0].(*ast.Ident)
+			found, _ := as.Lhs[1].(*ast.Ident)
+			okIdx := idx != nil && idx.Name != "_" && found != nil && found.Name != "_"
+			good, uses := true, 0
+			if okIdx {
+				iobj, fobj := info.ObjectOf(idx), info.ObjectOf(found)
+				// every boolean context in which `found` is used also consults the matched revision
+				ast.Inspect(fi.Decl.Body, func(k ast.Node) bool {
+					id, isID := k.(*ast.Ident)
+					if !isID || info.ObjectOf(id) != fobj || id == found {
+						return true
+					}
+					uses++
+					// the outermost boolean expression containing this use
+					var top ast.Node = id
+					for p := pm[id]; p != nil; p = pm[p] {
+						switch x := p.(type) {
+						case *ast.BinaryExpr:
+							if x.Op == token.LAND || x.Op == token.LOR {
+								top = x
+								continue
+							}
+						case *ast.UnaryExpr, *ast.ParenExpr:
+							top = p
+							continue
 						}
+						break
 					}
-				}
-				return true
-			})
-		}
-		// the matched revision may also be handed to a helper (complete(revs[i]))
-		consulted := false
-		if okIdx {
-			iobj := info.ObjectOf(idx)
-			ast.Inspect(ifs.Cond, func(k ast.Node) bool {
-				if ix, ok := k.(*ast.IndexExpr); ok {
-					if id, ok := ast.Unparen(ix.Index).(*ast.Ident); ok && info.ObjectOf(id) == iobj && types.ExprString(ix.X) == types.ExprString(call.Args[0]) {
-						consulted = true
+					reads, consulted := map[string]bool{}, false
+					ast.Inspect(top, func(j ast.Node) bool {
+						if ix, ok := j.(*ast.IndexExpr); ok {
+							if iid, ok := ast.Unparen(ix.Index).(*ast.Ident); ok && info.ObjectOf(iid) == iobj && types.ExprString(ix.X) == types.ExprString(call.Args[0]) {
+								consulted = true
+							}
+						}
+						if se, ok := j.(*ast.SelectorExpr); ok {
+							if ix, ok := ast.Unparen(se.X).(*ast.IndexExpr); ok {
+								if iid, ok := ast.Unparen(ix.Index).(*ast.Ident); ok && info.ObjectOf(iid) == iobj {
+									if v, isVar := info.ObjectOf(se.Sel).(*types.Var); isVar && v.IsField() {
+										reads[se.Sel.Name] = true
+									}
+								}
+							}
+						}
+						return true
+					})
+					if !(reads["Applied"] && reads["Total"] || consulted && len(reads) == 0) {
+						good = false
 					}
-				}
-				return true
-			})
-		}
-		c.Check(rule, "migrate.(Executor).Pending|"+types.ExprString(call.Args[0])+" look-up of "+types.ExprString(call.Args[1])+" requires a complete revision", ifs.Pos(), okIdx && (reads["Applied"] && reads["Total"] || consulted && len(reads) == 0), "Executor.Pending treats a file as done as soon as a revision with its version exists, without looking at Applied/Total of that revision: a file that was run out of order (non-linear) and failed half way is never resumed and `migrate status` reports no pending files")
-		return true
-	})
+					return true
+				})
+			}
+			c.Check(rule, fi.Name+"|"+types.ExprString(call.Args[0])+" look-up of "+types.ExprString(call.Args[1])+" requires a complete revision", as.Pos(), okIdx && good && uses > 0, "%s treats a file as done as soon as a revision with its version exists, without looking at Applied/Total of that revision: a file that was run out of order (non-linear) and failed half way is never resumed and `migrate status` reports no pending files", fi.Name)
+			return true
+		})
+	}
 	if n == 0 {
 		c.Unresolved(rule, "Executor.Pending: the look-up of a file's revision among the applied revisions")
 	}
